@@ -255,6 +255,7 @@ def fixed_menu(with_write=False):
         ["sort_contraction_indices", {"priority": "size", "make_output_contig": False}],
         ["sort_contraction_indices", {"priority": "root", "make_contracted_contig": False}],
         ["sort_contraction_indices", {"priority": "leaves"}],
+        ["sort_contraction_indices", {"priority": "flops", "reset": False}],
         ["reset_contraction_indices", {}],
         ["copy", {}],
         ["contract", {}],
@@ -349,6 +350,8 @@ def sample_op(rng, case, with_write=False):
             kw["make_output_contig"] = False
         if rng.random() < 0.4:
             kw["make_contracted_contig"] = False
+        if rng.random() < 0.3:
+            kw["reset"] = False
         return ["sort_contraction_indices", kw]
     if k == 11:
         return rng.choice([["reset_contraction_indices", {}], ["copy", {}]])
@@ -1200,16 +1203,24 @@ def run_histories(rep, tier, *, pid, module, checker, sizes, with_write, quick_b
 
 
 def report_violations(rep, module, viols, limit=5):
-    """Shortest histories first, distinct signatures, at most `limit`."""
-    seen = set()
+    """Distinct signatures, shortest cases first, round-robin over the kinds
+    of case (history / slice_unslice / search / slice / costs), at most
+    `limit` in total."""
     viols = sorted(viols, key=lambda v: (len(v[1].get("history", ())), len(v[0]), v[0]))
+    by_kind = {}
+    seen = set()
     for sig, case in viols:
         if sig in seen:
             continue
         seen.add(sig)
-        rep.violation(sig, {"module": module, "case": case})
-        if len(seen) >= limit:
-            break
+        by_kind.setdefault(case.get("kind", "history"), []).append((sig, case))
+    n = 0
+    while n < limit and any(by_kind.values()):
+        for kind in sorted(by_kind):
+            if by_kind[kind] and n < limit:
+                sig, case = by_kind[kind].pop(0)
+                rep.violation(sig, {"module": module, "case": case})
+                n += 1
     rep.extra["violating_cases_found"] = len(viols)
 
 
